@@ -226,8 +226,11 @@ def module_source(p, execute=False, decorators=()):
             inner = fix_mutate_A(inner)
         lines += inner + ['    return wrapper',
                           'target = factory(%s)' % ', '.join('g%d' % k for k in range(len(p['callees'])))]
-        # keep module-level names g0.. from resolving the closure route by accident
+        # keep module-level names g0.. from resolving the closure route by accident: after the wrapper exists, the
+        # module-level names are rebound to a decoy with another signature (the closure cells keep the real callees)
         lines += ['_callees = [%s]' % ', '.join('g%d' % k for k in range(len(p['callees'])))]
+        lines += ['def _decoy(decoy_only, *, decoy_kw):', '    REC.append("decoy")']
+        lines += ['g%d = _decoy' % k for k in range(len(p['callees']))]
     elif route == 'self':
         lines += ['class C(object):']
         for k, sig in enumerate(p['callees']):
